@@ -1,4 +1,4 @@
-HOOK_COMMITS = ["d183566", "d0e1250", "06b8afe", "b4f4d44"]
+HOOK_COMMITS = ["d183566", "d0e1250", "06b8afe", "b4f4d44", "3e38372"]
 NOTES = "Driver: ./check <ID> --tier quick|thorough. Exit 0 held / 1 VIOLATION / 2 inconclusive (harness trouble, never a violation). Known findings: known_findings.json."
 NOT_APPLICABLE = {}
 META = {
@@ -85,5 +85,11 @@ META = {
         "design_ref": "DESIGN.md section 4 C15",
         "note": "Real etcd + real EtcdOp; target is a fake api.TargetAPI.",
         "technique": "property-based testing (rapid), differential against reference function",
+    },
+    "C10": {
+        "text": "Stateful property-based exploration of create / failing create / delete / restart histories through the real HTTP handler and MetaCDC with a real etcd meta store: exclusivity per target on both selection paths, selection bounds at acceptance and constancy afterwards, side-effect freedom of rejects, and equality of the duplicate bookkeeping with a reference computed from the persisted tasks after every step. Found five defects (user-role flag out of step, partially overlapping wildcards accepted, shared exclusion removed with one task, bookkeeping reverted twice after a failed start), all fixed.",
+        "design_ref": "DESIGN.md section 4 C10",
+        "note": "Selection is evaluated through the exported selection functions over a 4x3 name universe (the functions the readers and the DDL path call), not by observing replicated traffic; traffic-level exclusivity is exercised in the C05/C06 simulator runs. Store failures are single transient faults.",
+        "technique": "property-based testing (rapid), stateful model-based oracle + reference bookkeeping, fault injection",
     },
 }
